@@ -5,7 +5,8 @@
    - C01_empty_flag, C01_iterate_complete (membership), C01_iterate_order (iterate is the order preserving
      filter of the response/topic/partition entries), C01_iterate_nodup (under `sane`: a (topic, partition)
      is handed out at most once per poll), C01_failed_poll_keeps_offsets, C01_offsets_advance,
-     C01_consumed_untouched, C01_fetch_failure (+ C01_poll_consumed_untouched for every outcome of a poll).
+     C01_consumed_untouched, C01_fetch_failure (+ C01_poll_consumed_untouched for every outcome of a poll),
+     C01_sane_no_panic (under `sane` the post-processing of a poll never panics, debug or release build).
    - shared helper lemmas on tk_get/tk_set, topic_ref and the flattened form `process_entries` of
      process_topics/process_parts (re-used by C17Facts.v).
    SURPRISING (concrete witness):
@@ -534,7 +535,7 @@ Proof.
   - intros t fp hw msgs m Hin Hd Hm. vm_compute in Hin.
     destruct Hin as [Hin|[Hin|[]]]; inversion Hin; subst; cbn [fp_data] in Hd; inversion Hd; subst.
     + destruct Hm.
-    + destruct Hm as [Hm|[Hm|[Hm|[]]]]; subst m; vm_compute; split; discriminate.
+    + destruct Hm as [Hm|[Hm|[Hm|[]]]]; subst m; vm_compute; (split; [discriminate|reflexivity]).
 Qed.
 
 (* ---- C01_empty_flag ------------------------------------------------------------------------------------- *)
@@ -678,8 +679,8 @@ Proof.
       as Hget.
     unfold e_key in Hget. cbn [fst snd] in Hget. rewrite Hp in Hget. exact Hget.
   - intros Hquiet.
-    rewrite (process_entries_quiet _ _ _ _ _ (r, p) _ _ _ (fun e Hin Hk => _) Hes); [reflexivity|].
-    Unshelve.
+    apply (process_entries_quiet _ _ _ _ _ (r, p) _ _ _) with (2 := Hes).
+    intros e Hin Hk.
     destruct e as [[t r0] fp]. unfold e_key in Hk. cbn [fst snd] in *. inversion Hk; subst r0 p.
     apply Hin_es in Hin. destruct Hin as [ft [Hft [Ht [Hr Hfp]]]].
     apply in_flat_map in Hft. destruct Hft as [rs [Hrs Hft]].
@@ -688,11 +689,12 @@ Qed.
 
 (* partition 1 delivered offsets 7..9 and continues at 10; the empty partition 0 listed before it stays at 5 *)
 Example C01_offsets_advance_ex :
+  sane ex_k ex_resps /\
   exists ms k', process_fetch_responses true ex_k 2 ex_resps = (Ok ms, k') /\
     first_error ex_resps = None /\
     tk_get (0, 1) (k_fetch k') = Some (10, 32768) /\ tk_get (0, 0) (k_fetch k') = Some (5, 32768) /\
     tk_get (0, 1) (k_fetch ex_k) = Some (7, 32768) /\ k_retry k' = [].
-Proof. eexists; eexists; vm_compute; repeat split. Qed.
+Proof. split; [exact ex_sane|]. eexists; eexists; vm_compute; repeat split. Qed.
 
 (* ---- C01_consumed_untouched ----------------------------------------------------------------------------- *)
 Theorem C01_consumed_untouched : forall dbg k n resps r k',
@@ -715,6 +717,93 @@ Example C01_consumed_untouched_ex :
   k_consumed (snd (process_fetch_responses true ex_k 2 ex_resps)) = [((0, 1), (6, true))] /\
   k_fetch (snd (process_fetch_responses true ex_k 2 ex_resps)) <> k_fetch ex_k.
 Proof. vm_compute. split; [reflexivity|discriminate]. Qed.
+
+(* ---- under `sane` a poll never panics -------------------------------------------------------------------- *)
+Lemma tk_get_set_present {V} key q (v : V) m : tk_get q m <> None -> tk_get q (tk_set key v m) <> None.
+Proof.
+  intros H. destruct (tpkey_eqb key q) eqn:E.
+  - apply tpkey_eqb_eq in E. subst q. rewrite tk_get_set_same. discriminate.
+  - rewrite tk_get_set_other; [exact H|]. intros Heq. subst q. rewrite tpkey_eqb_refl in E. discriminate.
+Qed.
+
+Lemma process_partition_keys dbg single n cm limit r p s s' q :
+  process_partition dbg single n cm limit r p s = POk s' ->
+  tk_get q (ps_fetch s) <> None -> tk_get q (ps_fetch s') <> None.
+Proof.
+  intros H Hq. destruct (fp_data p) as [[hw msgs]|c] eqn:Hd.
+  2:{ unfold process_partition in H. cbv zeta in H. rewrite Hd in H. discriminate. }
+  destruct (tk_get (r, fp_partition p) (ps_fetch s)) as [[off maxb]|] eqn:Hg.
+  2:{ unfold process_partition in H. cbv zeta in H. rewrite Hd, Hg in H. discriminate. }
+  rewrite (process_partition_data _ _ _ _ _ _ _ _ _ _ _ _ Hd Hg) in H.
+  destruct (last_msg msgs) as [m|].
+  - destruct (i64_op dbg (m_offset m + 1)) as [o|e|w]; try discriminate.
+    inversion H; subst s'. cbn [ps_fetch]. apply tk_get_set_present. exact Hq.
+  - destruct (off <? hw) eqn:E1.
+    + destruct (maxb <? limit) eqn:E2.
+      * inversion H; subst s'. cbn [ps_fetch]. apply tk_get_set_present. exact Hq.
+      * destruct (n =? 1) eqn:E3; [discriminate|]. inversion H; subst s'. exact Hq.
+    + inversion H; subst s'. exact Hq.
+Qed.
+
+Lemma process_partition_no_panic dbg single n cm limit r p s w :
+  tk_get (r, fp_partition p) (ps_fetch s) <> None ->
+  (forall hw msgs m, fp_data p = inl (hw, msgs) -> In m msgs -> i64_min <= m_offset m < i64_max) ->
+  process_partition dbg single n cm limit r p s <> PPanic w.
+Proof.
+  intros Hk Hoff. destruct (fp_data p) as [[hw msgs]|c] eqn:Hd.
+  2:{ unfold process_partition. cbv zeta. rewrite Hd. discriminate. }
+  destruct (tk_get (r, fp_partition p) (ps_fetch s)) as [[off maxb]|] eqn:Hg; [|contradiction].
+  rewrite (process_partition_data _ _ _ _ _ _ _ _ _ _ _ _ Hd Hg).
+  destruct (last_msg msgs) as [m|] eqn:Hl.
+  - assert (Hm : i64_min <= m_offset m < i64_max) by (apply (Hoff hw msgs m eq_refl), last_msg_in, Hl).
+    rewrite i64_op_in_range by lia. discriminate.
+  - destruct (off <? hw); [|discriminate]. destruct (maxb <? limit); [discriminate|].
+    destruct (n =? 1); discriminate.
+Qed.
+
+Lemma process_entries_no_panic dbg single n cm limit es w : forall s,
+  (forall e, In e es -> tk_get (e_key e) (ps_fetch s) <> None /\
+       forall hw msgs m, fp_data (snd e) = inl (hw, msgs) -> In m msgs -> i64_min <= m_offset m < i64_max) ->
+  process_entries dbg single n cm limit es s <> PPanic w.
+Proof.
+  induction es as [|e es IH]; intros s Hes; cbn [process_entries]; [discriminate|].
+  destruct (process_partition dbg single n cm limit (snd (fst e)) (snd e) s) as [s1|e1 s1|w1] eqn:Ep.
+  - apply IH. intros e' Hin. destruct (Hes e' (or_intror Hin)) as [Hk Hoff]. split; [|exact Hoff].
+    apply (process_partition_keys _ _ _ _ _ _ _ _ _ _ Ep). exact Hk.
+  - discriminate.
+  - destruct (Hes e (or_introl eq_refl)) as [Hk Hoff].
+    intros Heq. inversion Heq; subst w1.
+    apply (process_partition_no_panic dbg single n cm limit (snd (fst e)) (snd e) s w Hk Hoff). exact Ep.
+Qed.
+
+Theorem C01_sane_no_panic : forall dbg k n resps w k',
+  sane k resps -> process_fetch_responses dbg k n resps <> (Panic w, k').
+Proof.
+  intros dbg k n resps w k' Hs. unfold process_fetch_responses.
+  destruct (first_error resps) as [c|]; [discriminate|]. cbv zeta.
+  destruct (resolve_total (k_assign k) (flat_map fr_topics resps)) as [es Hres].
+  { intros ft Hft. apply in_flat_map in Hft. destruct Hft as [rs [Hrs Hft]].
+    destruct (sane_assigned _ _ Hs rs ft Hrs Hft) as [r [Hr _]]. eauto. }
+  rewrite (process_topics_resolved _ _ _ _ _ _ _ _ _ Hres).
+  match goal with |- context [process_entries ?a ?b ?c ?d ?e ?f ?g] =>
+    destruct (process_entries a b c d e f g) as [s'|e1 s'|w1] eqn:Ep end; try discriminate.
+  exfalso. revert Ep. apply process_entries_no_panic. intros [[t r] fp] Hin.
+  apply (resolve_in _ _ _ Hres) in Hin. destruct Hin as [ft [Hft [Ht [Hr Hfp]]]].
+  apply in_flat_map in Hft. destruct Hft as [rs [Hrs Hft]].
+  unfold e_key. cbn [fst snd ps_fetch]. split.
+  - destruct (sane_assigned _ _ Hs rs ft Hrs Hft) as [r' [Hr' Hall]].
+    rewrite Hr in Hr'. inversion Hr'; subst r'. apply Hall. exact Hfp.
+  - intros hw msgs m Hd Hm. apply (sane_offsets _ _ Hs t fp hw msgs m); [|exact Hd|exact Hm].
+    apply resp_entries_in. exists rs, ft. auto.
+Qed.
+
+(* without `sane`: an unassigned topic in the answer is a panic of poll *)
+Example C01_sane_no_panic_ex :
+  sane ex_k ex_resps /\
+  exists w, process_fetch_responses true ex_k 2
+              [{| fr_corr := 1; fr_topics := [{| ft_topic := tag "other"; ft_partitions := [] |}] |}]
+            = (Panic w, ex_k).
+Proof. split; [exact ex_sane|]. eexists. vm_compute. reflexivity. Qed.
 
 (* ---- C01_fetch_failure ---------------------------------------------------------------------------------- *)
 (* the request list Consumer::fetch_messages hands to the client (None: the queued retry partition is not
@@ -772,7 +861,62 @@ Proof.
     + unfold mbind, ret, get_client, get_env in H. cbv beta iota in H. inversion H; subst. cbn. auto.
 Qed.
 
-(* a state whose I/O script is exhausted: the client's fetch fails, the poll reports it, nothing moves *)
-Definition ex_st (c : client) : st :=
-  {| script := []; trace := []; anyq := []; hostq := []; fetchq := []; entryq := []; cl := c;
-     env := {| debug_build := true |} |}.
+(* the broker refuses the connection: the client's fetch fails, the poll reports it, no offset moves; with
+   a pending retry partition the only change is that it left the queue *)
+Definition ex_cs : cstate :=
+  {| correlation := 0; brokers := [ {| b_node := 1; b_host := tag "h:9092" |} ];
+     topic_partitions := [ (tag "t", [0; 0]) ]; group_coordinators := [] |}.
+Definition ex_client2 : client := {| cfg := default_config [tag "h:9092"]; cs := ex_cs; conns := [] |}.
+Definition ex_k2 (retry : list tpkey) : consumer :=
+  {| k_client := ex_client2; k_group := tag "g"; k_fallback := FbEarliest; k_retry_limit := 1000000;
+     k_assign := [(tag "t", [0; 1])];
+     k_fetch := [((0, 0), (5, 65536)); ((0, 1), (7, 32768))];
+     k_retry := retry;
+     k_consumed := [((0, 1), (6, true))] |}.
+Definition ex_env : codecs :=
+  {| gz_compress := fun b => b; sn_compress := fun b => b; gz_decompress := fun b => Some b; debug_build := true |}.
+Definition ex_st (script : list ev_out) : st :=
+  {| script := script; trace := []; anyq := []; hostq := []; fetchq := []; entryq := []; cl := ex_client2;
+     env := ex_env |}.
+
+Example C01_fetch_failure_ex :
+  poll_requests (ex_k2 [(0, 0)]) = Some [{| fq_topic := tag "t"; fq_partition := 0; fq_offset := 5; fq_max_bytes := 65536 |}] /\
+  (exists s', fetch_messages [{| fq_topic := tag "t"; fq_partition := 0; fq_offset := 5; fq_max_bytes := 65536 |}]
+                             (ex_st [OConn false]) = (Err (EIo IoConnRefused), s') /\
+     exists k1, consumer_poll (ex_k2 [(0, 0)]) (ex_st [OConn false]) = (Ok (Err (EIo IoConnRefused), k1), s') /\
+       k_fetch k1 = k_fetch (ex_k2 [(0, 0)]) /\ k_consumed k1 = k_consumed (ex_k2 [(0, 0)]) /\ k_retry k1 = [])
+  /\ (exists s' k1, consumer_poll (ex_k2 []) (ex_st [OConn false]) = (Ok (Err (EIo IoConnRefused), k1), s') /\
+       k_fetch k1 = k_fetch (ex_k2 []) /\ k_consumed k1 = k_consumed (ex_k2 []) /\ k_retry k1 = []).
+Proof.
+  split; [reflexivity|]. split.
+  - eexists. split; [vm_compute; reflexivity|]. eexists. vm_compute. repeat split.
+  - eexists. eexists. vm_compute. repeat split.
+Qed.
+
+(* ---- surprising: the MessageSizeTooLarge early return comes after offsets were advanced ------------------- *)
+(* A one-partition (retry) fetch of t:0, n = 1, max_bytes already at the limit; the answer lists t:1 with
+   messages 7..9 first and then the still empty t:0.  The poll is an Err, nothing is handed out, but the
+   fetch offset of t:1 has moved from 7 to 10: messages 7..9 are never delivered. *)
+Definition ex_resps_extra : list fetch_resp :=
+  [ {| fr_corr := 1;
+       fr_topics := [ {| ft_topic := tag "t";
+                         ft_partitions := [ {| fp_partition := 1; fp_data := inl (10, [ex_msg 7; ex_msg 8; ex_msg 9]) |};
+                                            {| fp_partition := 0; fp_data := inl (6, []) |} ] |} ] |} ].
+
+Example C01_too_large_midway_skips :
+  exists k', process_fetch_responses true ex_k 1 ex_resps_extra = (Err (EKafka KC_MessageSizeTooLarge), k') /\
+    first_error ex_resps_extra = None /\
+    tk_get (0, 1) (k_fetch ex_k) = Some (7, 32768) /\ tk_get (0, 1) (k_fetch k') = Some (10, 32768).
+Proof. eexists. vm_compute. repeat split. Qed.
+
+Print Assumptions C01_empty_flag.
+Print Assumptions C01_iterate_complete.
+Print Assumptions C01_iterate_order.
+Print Assumptions C01_iterate_nodup.
+Print Assumptions C01_failed_poll_keeps_offsets.
+Print Assumptions C01_offsets_advance.
+Print Assumptions C01_consumed_untouched.
+Print Assumptions C01_sane_no_panic.
+Print Assumptions C01_fetch_failure.
+Print Assumptions C01_poll_consumed_untouched.
+Print Assumptions C01_too_large_midway_skips.
